@@ -29,19 +29,27 @@ import (
 const simPath = "zzsim"
 
 var shimImports = map[string]string{
-	"sync":       "zzsim/zsync",
-	"math/rand":  "zzsim/zrand",
-	"net":        "zzsim/znet",
-	"crypto/tls": "zzsim/ztls",
-	"time":       "zzsim/ztime",
+	"sync":                    "zzsim/zsync",
+	"math/rand":               "zzsim/zrand",
+	"net":                     "zzsim/znet",
+	"crypto/tls":              "zzsim/ztls",
+	"time":                    "zzsim/ztime",
+	"github.com/ftrvxmtrx/fd": "zzsim/zfd",
 }
 
+// "os" is redirected only in files that use it for nothing but pipes
+// (os.Pipe, os.File): the fd-passing transport
+const osShim = "zzsim/zos"
+
+var osPipeOnly = map[string]bool{"Pipe": true, "File": true}
+
 var defaultNames = map[string]string{
-	"sync":       "sync",
-	"math/rand":  "rand",
-	"net":        "net",
-	"crypto/tls": "tls",
-	"time":       "time",
+	"sync":                    "sync",
+	"math/rand":               "rand",
+	"net":                     "net",
+	"crypto/tls":              "tls",
+	"time":                    "time",
+	"github.com/ftrvxmtrx/fd": "fd",
 }
 
 type stats struct {
@@ -260,6 +268,12 @@ func (rw *rewriter) imports(f *ast.File) {
 			have = true
 		}
 		shim, ok := shimImports[p]
+		if p == "os" && rw.osForPipesOnly(f, spec) {
+			shim, ok = osShim, true
+			if spec.Name == nil {
+				spec.Name = ast.NewIdent("os")
+			}
+		}
 		if !ok {
 			continue
 		}
@@ -293,6 +307,35 @@ func (rw *rewriter) imports(f *ast.File) {
 		Names:  []*ast.Ident{ast.NewIdent("_")},
 		Values: []ast.Expr{sel("zzsim", "W")},
 	}}})
+}
+
+// osForPipesOnly tells whether every use the file makes of package os is
+// os.Pipe or os.File.
+func (rw *rewriter) osForPipesOnly(f *ast.File, spec *ast.ImportSpec) bool {
+	name := "os"
+	if spec.Name != nil {
+		name = spec.Name.Name
+	}
+	uses, only := 0, true
+	ast.Inspect(f, func(n ast.Node) bool {
+		se, ok := n.(*ast.SelectorExpr)
+		if !ok {
+			return true
+		}
+		id, ok := se.X.(*ast.Ident)
+		if !ok || id.Name != name {
+			return true
+		}
+		if pn, ok := rw.info.Uses[id].(*types.PkgName); !ok || pn.Imported().Path() != "os" {
+			return true
+		}
+		uses++
+		if !osPipeOnly[se.Sel.Name] {
+			only = false
+		}
+		return true
+	})
+	return uses > 0 && only
 }
 
 func sel(x, name string) *ast.SelectorExpr {
